@@ -1,0 +1,41 @@
+//go:build verif
+// +build verif
+
+// Contracts for the deductive verifier in /verif (govc). Comment-only: this file adds no code.
+
+package size
+
+// ---- C20: size.Of is the structural sum of a value's parts ----
+// reflect.Value is an opaque handle; rv*/ssum are the assumed reflect model and the
+// specification (see /verif/speclib/05_reflect.spec).
+
+//@ global mapsize: mapsize == 8
+//@ global slicesize: slicesize == 24
+//@ global stringsize: stringsize == 16
+//@ global pointersize: pointersize == 8
+//@ global interfacesize: interfacesize == 16
+
+//@ func init
+//@   initphase
+//@   assigns mapsize, slicesize, stringsize, pointersize, interfacesize
+//@   establishes globals
+
+//@ func Of returns (r)
+//@   requires data != nil ==> supported(rvOf(data))
+//@   ensures data == nil ==> r == 0
+//@   ensures data != nil ==> r == ssum(rvOf(data))
+//@   assigns nothing
+
+//@ func sizeof returns (r)
+//@   requires supported(v)
+//@   ensures r == ssum(v)
+//@   assigns nothing
+//@   loop 1
+//@     invariant 0 <= i && i <= len(keys) && len(keys) == rvLen(v) && sum == smap(v, i)
+//@     invariant forall k int :: 0 <= k && k < len(keys) ==> keys[k] == rvKey(v, k)
+//@   loop 2
+//@     invariant 0 <= i && i <= n && n == rvLen(v) && sum == sidx(v, i)
+//@   loop 3
+//@     invariant 0 <= i && i <= n && n == rvLen(v) && sum == sidx(v, i)
+//@   loop 4
+//@     invariant 0 <= i && i <= n && n == rvNumField(v) && sum == sfld(v, i)
